@@ -241,8 +241,8 @@ def recurse(f; p): recurse(f | select(p));
 def isempty(f): first((f | false), true);
 def nth($i; f): first(skip($i; f));
 def nth($i): .[$i];
-def first: first(.[]);
-def last: last(.[]);
+def first: .[0];
+def last: .[-1];
 def any(f; p): isempty(f | p or empty) | not;
 def all(f; p): isempty(f | p and empty);
 def any(p): any(.[]; p);
